@@ -602,9 +602,9 @@ func init() {
 		}
 	}
 	f1("math.Abs", math.Abs, opFAbs)
-	f1("math.Floor", math.Floor, 0)
-	f1("math.Ceil", math.Ceil, 0)
-	f1("math.Trunc", math.Trunc, 0)
+	f1("math.Floor", math.Floor, opFFloor)
+	f1("math.Ceil", math.Ceil, opFCeil)
+	f1("math.Trunc", math.Trunc, opFTrunc)
 	f1("math.Round", math.Round, 0)
 	f1("math.Sqrt", math.Sqrt, 0)
 	f1("math.Log", math.Log, 0)
